@@ -497,6 +497,7 @@ def matmulOp (a b : Op α) : Except Err (Op α) :=
       match b with
       | .dense _ m t => .ok (.dense a.rows m fun i j => a.diagOf i * t i j)
       | .tri up (.dense _ m t) => .ok (.tri up (.dense a.rows m fun i j => a.diagOf i * t i j))
+      | .tri up t => .ok (.tri up (.matmul a t))   -- Triangular(self @ other._tensor): a non-Dense `_tensor` gives a lazy Matmul
       | b =>
         if b.isDiag then .ok (.diag a.rows fun i => a.diagOf i * b.diagOf i)
         else .ok (.matmul a b)
